@@ -38,6 +38,18 @@ def _serialize(out: Outcome, obj, case, tmp):
         return None
 
 
+def _view_and_serialize(out: Outcome, obj, case, tmp, view):
+    """(view of the original, restored copy).  A *blind* case serializes first: no observation of the harness
+    touches the object between the last operation of its life and `dumps` (an observation may refresh what
+    the object built lazily and hide a stale member from the pickled state)."""
+    out.info["blind"] = bool(case.get("blind"))
+    if case.get("blind"):
+        copy = _serialize(out, obj, case, tmp)
+        return (view(obj) if copy is not None else None), copy
+    v0 = view(obj)
+    return v0, _serialize(out, obj, case, tmp)
+
+
 def _cmp(out: Outcome, kind: str, a: Any, b: Any, what: str) -> bool:
     d = OBS.diff_views(a, b)
     if d:
@@ -109,8 +121,7 @@ def run_design_space_case(case, tmp: Path) -> Outcome:
         n0 = ds.variable_names[0]
         ds.set_lower_bound(n0, np.full(ds.get_size(n0), -3.0))
         _ds_probe(ds, [[0.5] * ds.dimension])
-    v0 = design_space_view(ds)
-    copy = _serialize(out, ds, case, tmp)
+    v0, copy = _view_and_serialize(out, ds, case, tmp, design_space_view)
     if copy is None:
         return out
     _cmp(out, "original-altered", v0, design_space_view(ds), "serializing altered the original")
@@ -353,8 +364,7 @@ def run_problem_case(case, tmp: Path) -> Outcome:
             out.status = "skipped"
             out.detail = "original cannot be solved: " + r[2]
             return out
-    v0 = problem_view(p)
-    copy = _serialize(out, p, case, tmp)
+    v0, copy = _view_and_serialize(out, p, case, tmp, problem_view)
     if copy is None:
         return out
     _cmp(out, "original-altered", v0, problem_view(p), "serializing altered the original")
@@ -460,8 +470,7 @@ def run_scenario_case(case, tmp: Path) -> Outcome:
             return out
     if case.get("xdsm"):
         _call(sc.xdsmize, directory_path=str(tmp), save_html=False, save_json=False, pdf_build=False)
-    v0 = scenario_view(sc)
-    copy = _serialize(out, sc, case, tmp)
+    v0, copy = _view_and_serialize(out, sc, case, tmp, scenario_view)
     if copy is None:
         return out
     _cmp(out, "original-altered", _no_duration(v0), _no_duration(scenario_view(sc)), "serializing altered the original")
@@ -634,9 +643,16 @@ def build_grammar(case, rng: common.Rng):
     if ops is None:
         ops = []
         names = ["a", "b", "c", "d", "e"]
+        edits = ["names", "types", "data", "required", "defaults", "ns", "del", "merge", "rename", "restrict"]
+        soft = ["required", "required", "unrequire", "unrequire", "defaults", "popdefault"]
+        uses = ["validate", "validate", "schema", "pickle", "copy"]
         for _ in range(rng.randint(1, 6)):
-            k = rng.pick(["names", "types", "data", "required", "defaults", "ns", "del", "merge"])
-            ops.append([k, rng.pick(names), rng.randint(0, 5)])
+            ops.append([rng.pick(edits), rng.pick(names), rng.randint(0, 5)])
+        # the life goes on: the grammar is used (which builds what it builds lazily), then edited again
+        for _ in range(rng.randint(0, 3)):
+            ops.append([rng.pick(uses), rng.pick(names), rng.randint(0, 5)])
+            for _ in range(rng.randint(0, 3)):
+                ops.append([rng.pick(soft * 2 + edits), rng.pick(names), rng.randint(0, 5)])
         case["ops"] = ops
     types = [float, int, str, bool, np.ndarray, dict]
     datas = [1.5, 3, "s", True, np.array([1.0, 2.0]), np.array([1, 2])]
@@ -664,6 +680,34 @@ def build_grammar(case, rng: common.Rng):
                 other.update_from_names([n + "_m"])
                 other.defaults[n + "_m"] = np.array([float(j)])
                 g.update(other)
+            elif k == "unrequire":
+                cur = sorted(g.required_names)
+                if cur:
+                    g.required_names.remove(cur[j % len(cur)])
+            elif k == "popdefault":
+                cur = sorted(g.defaults)
+                if cur:
+                    g.defaults.pop(cur[j % len(cur)])
+            elif k == "rename" and n in g:
+                g.rename_element(n, n + "_r")
+            elif k == "restrict":
+                cur = sorted(g.names)
+                if len(cur) > 1:
+                    g.restrict_to([x for i, x in enumerate(cur) if i != j % len(cur)])
+            elif k == "validate":
+                data = {x: np.array([1.0]) for x in g.names}
+                data.update(g.defaults)
+                if j % 3 == 0 and data:
+                    data.pop(sorted(data)[j % len(data)])
+                g.validate(data, raise_exception=False)
+            elif k == "schema":
+                _ = getattr(g, "schema", None)
+            elif k == "pickle":
+                import pickle as _pickle
+
+                g = _pickle.loads(_pickle.dumps(g))
+            elif k == "copy":
+                g = g.copy()
         except Exception:  # noqa: BLE001
             pass
     return g
@@ -678,8 +722,8 @@ def run_grammar_case(case, tmp: Path) -> Outcome:
         out.status = "noinst"
         out.detail = f"{type(e).__name__}: {e}"
         return out
-    v0 = OBS.grammar_view(g)
-    copy = _serialize(out, g, case, tmp)
+    out.info["edits_done"] = sorted({o[0] for o in case.get("ops", [])} & {"validate", "schema", "pickle", "copy", "unrequire", "popdefault", "rename", "restrict"})
+    v0, copy = _view_and_serialize(out, g, case, tmp, OBS.grammar_view)
     if copy is None:
         return out
     _cmp(out, "original-altered", v0, OBS.grammar_view(g), "serializing altered the original")
@@ -689,6 +733,7 @@ def run_grammar_case(case, tmp: Path) -> Outcome:
         out.fail("copy-broken", f"viewing the restored grammar raises {type(e).__name__}: {str(e)[:200]}")
         return out
     _cmp(out, "view-differs:grammar", v0, v1, "restored grammar differs")
+    _cmp(out, "view-differs:grammar", OBS.schema_view(g), OBS.schema_view(copy), "schema property of the restored grammar differs")
     sh = OBS.shared_state(g, copy)
     if sh:
         out.fail("shared-state", "; ".join(sh[:4]))
@@ -718,6 +763,20 @@ def run_grammar_case(case, tmp: Path) -> Outcome:
         a, b = OBS.validate_outcome(g, data), OBS.validate_outcome(copy, data)
         if a != b:
             out.fail("grammar-validation-differs", f"after edits validate(...): original={a} copy={b}")
+    # pickled again at this later moment of their life (edited after they were validated)
+    for h, who in ((g, "original"), (copy, "first copy")):
+        try:
+            h.required_names.discard("a")
+            h.required_names.discard("zz")
+            h2 = _rt(h, case, tmp)
+        except Exception as e:  # noqa: BLE001
+            out.fail("second-generation-raises", f"serializing the {who} again raises {type(e).__name__}: {str(e)[:200]}")
+            continue
+        _cmp(out, "second-generation-differs", OBS.grammar_view(h), OBS.grammar_view(h2), f"{who} pickled again after further edits")
+        for data in OBS.grammar_probe_data(h, rng):
+            a, b = OBS.validate_outcome(h, data), OBS.validate_outcome(h2, data)
+            if a != b:
+                out.fail("grammar-validation-differs", f"{who} pickled again after further edits: validate(...): original={a} copy={b}")
     return out
 
 
@@ -741,11 +800,37 @@ def run_cache_case(case, tmp: Path) -> Outcome:
         cache.cache_outputs(x, {"y": np.array([2.0 * k + 0.5]), "z": np.array([1.0, float(k)])})
         if rng.chance(0.5):
             cache.cache_jacobian(x, {"y": {"x": np.array([[1.0, float(k)]]), "p": np.array([[0.5]])}})
-    v0 = OBS.cache_view(cache)
-    copy = _serialize(out, cache, case, tmp)
+    # settings changed through the public API after the construction (and after the cache was used)
+    from fractions import Fraction as _Fr
+
+    want = {"tolerance": tol, "name": "mycache"}
+    done = []
+    for e in case.get("edits") or ():
+        if e[0] == "tol":
+            cache.tolerance = float(_Fr(e[1]))
+            want["tolerance"] = float(_Fr(e[1]))
+        elif e[0] == "name":
+            cache.name = str(e[1])
+            want["name"] = str(e[1])
+        done.append(e[0])
+    out.info["edits_done"] = done
+    v0, copy = _view_and_serialize(out, cache, case, tmp, OBS.cache_view)
     if copy is None:
         return out
     _cmp(out, "view-differs:cache", v0, OBS.cache_view(copy), "restored cache differs")
+    # positive and independent of the original's getters: the restored cache shows the values that were set
+    got = {"tolerance": getattr(copy, "tolerance", None), "name": getattr(copy, "name", None)}
+    if not (isinstance(got["tolerance"], float) and got["tolerance"] == want["tolerance"] and got["name"] == want["name"]):
+        out.fail("setting-not-carried", f"settings when pickled {want}, settings of the restored cache {got}")
+    if n and want["tolerance"] > 0.0:
+        # a look-up within the current tolerance of a cached input: both return the cached outputs
+        x0 = dict(list(cache.get_all_entries())[0].inputs)
+        xq_near = {k: v.copy() for k, v in x0.items()}
+        xq_near["x"][1] += want["tolerance"] / 4.0
+        ea, eb = cache[xq_near], copy[xq_near]
+        _cmp(out, "behaviour-differs:cache", OBS.canon(dict(ea.outputs)), OBS.canon(dict(eb.outputs)), "look-up within the tolerance differs")
+        out.info["near_inputs"] = 1
+        out.info["near_hits"] = int(bool(ea.outputs))
     if ctype != "HDF5Cache":
         sh = OBS.shared_state(cache, copy)
         if sh:
@@ -757,15 +842,13 @@ def run_cache_case(case, tmp: Path) -> Outcome:
     _cmp(out, "behaviour-differs:cache", OBS.canon((dict(ea.outputs), {k: dict(v) for k, v in (ea.jacobian or {}).items()})),
          OBS.canon((dict(eb.outputs), {k: dict(v) for k, v in (eb.jacobian or {}).items()})), "lookup differs")
     xn = {"x": np.array([9.0, 9.0]), "p": np.array([1.0])}
-    copy.cache_outputs(xn, {"y": np.array([1.0]), "z": np.array([0.0, 0.0])})
     if ctype == "HDF5Cache":
         import pickle as _pickle
 
         from gemseo.caches.hdf5_cache import HDF5Cache
 
-        re_attached = HDF5Cache(hdf_file_path=v0["file"], hdf_node_path=v0["node"])
-        if OBS.cache_view(re_attached)["entries"] != OBS.cache_view(copy)["entries"]:
-            out.fail("file-cache-detached", "what the restored cache stored is not in the original's file and node")
+        # (single-writer protocol: a cache attached to a node keeps its own entry counter, so the one that
+        #  writes is always the one attached last)
         # the state holds no copy of the entries: what the original stores after it was pickled is seen by
         # a copy restored later (a file-based cache stays attached to its file)
         blob = _pickle.dumps(cache)
@@ -778,7 +861,15 @@ def run_cache_case(case, tmp: Path) -> Outcome:
         el = late[xl]
         if OBS.canon(dict(el.outputs or {})) != OBS.canon({"y": np.array([3.0]), "z": np.array([1.0, 2.0])}):
             out.fail("file-cache-detached", "a copy restored after the original stored one more entry does not find that entry")
+        got = {"tolerance": getattr(late, "tolerance", None), "name": getattr(late, "name", None)}
+        if not (got["tolerance"] == want["tolerance"] and got["name"] == want["name"]):
+            out.fail("setting-not-carried", f"settings when pickled {want}, settings of the cache restored later {got}")
+        late.cache_outputs(xn, {"y": np.array([1.0]), "z": np.array([0.0, 0.0])})
+        re_attached = HDF5Cache(hdf_file_path=v0["file"], hdf_node_path=v0["node"])
+        if OBS.cache_view(re_attached)["entries"] != OBS.cache_view(late)["entries"] or len(re_attached) != n + 2:
+            out.fail("file-cache-detached", "what the restored cache stored is not in the original's file and node")
     else:
+        copy.cache_outputs(xn, {"y": np.array([1.0]), "z": np.array([0.0, 0.0])})
         _cmp(out, "copy-affects-original", v0, OBS.cache_view(cache), "writing to the copy changed the original")
     return out
 
